@@ -172,6 +172,18 @@ fn specials() -> Vec<String> {
         "dw [1 , 65535]".into(),
         "db [65535]".into(),
         "db [5 , 65535]".into(),
+        // labels at the very end of the file that a taken jump reaches (nothing follows them but the driver's own halt)
+        "start: jmp fin\nhlt\nfin:".into(),
+        "start: jmp fin\nhlt\nfin:\n".into(),
+        "start: hlt\nfin:\n".into(),
+        "start: cmp ax, 0\nje fin\nhlt\nfin:\n".into(),
+        "start: mov cx, 2\nagain: loop again\njmp fin\nnop\nhlt\nfin:".into(),
+        "def f { ret }\nstart: call f\njmp e\nhlt\ne:\n".into(),
+        "def f { inc ax }\nstart: call f\njmp e\ne:".into(),
+        "start: jmp a\nb: hlt\na: jmp b\nc:\n".into(),
+        "start: jcxz z\nhlt\nz:\n".into(),
+        "start: print reg\njmp z\nhlt\nz:".into(),
+        "x: db 1\nstart: jmp z\nhlt\nhlt\nz:\n\n\n".into(),
     ];
     for n in [1usize, 5, 19, 20, 21, 40, 1000] {
         v.push(format!("start: mov ax, {}", "9".repeat(n)));
